@@ -14,16 +14,43 @@ func c18Profile() *profile {
 	return &profile{
 		name:    "C18",
 		clients: [2]int{1, 3},
-		steps:   [2]int{15, 70},
-		ops: []string{
-			"bootstrap", "reregister", "reregister", "exchange_id", "create_session", "destroy_session", "destroy_clientid", "shutdown",
-			"open", "open", "open", "open", "open_fh", "open_fh", "close", "close", "close", "downgrade", "downgrade",
-			"lock_new", "lock_new", "lock_existing", "lockt", "locku", "free_stateid", "free_stateid", "test_stateid",
-			"read", "read", "write", "write", "setattr", "remove", "remove", "lookup", "probe", "probe", "noop", "reclaim_complete",
-			"destroy_session_inseq", "destroy_clientid_inseq",
-			"release", "release", "release", "advance", "advance", "advance_small",
-			"replay", "misordered", "bad_session",
-		},
+		steps:   [2]int{20, 110},
+		ops: weighted(map[string]int{
+			"bootstrap": 1,
+			"reregister": 2,
+			"exchange_id": 1,
+			"create_session": 2,
+			"destroy_session": 1,
+			"destroy_clientid": 1,
+			"shutdown": 1,
+			"open": 12,
+			"open_fh": 6,
+			"open_then": 3,
+			"close": 7,
+			"downgrade": 6,
+			"lock_new": 7,
+			"lock_existing": 4,
+			"lockt": 2,
+			"locku": 4,
+			"free_stateid": 4,
+			"test_stateid": 3,
+			"read": 6,
+			"write": 6,
+			"setattr": 3,
+			"remove": 3,
+			"lookup": 2,
+			"probe": 4,
+			"noop": 1,
+			"reclaim_complete": 1,
+			"destroy_session_inseq": 1,
+			"destroy_clientid_inseq": 1,
+			"release": 9,
+			"advance": 3,
+			"advance_small": 3,
+			"replay": 2,
+			"misordered": 1,
+			"bad_session": 1,
+		}),
 		oracle:   map[string]bool{"acct": true},
 		parkPct:  35,
 		devPct:   25,
@@ -39,15 +66,38 @@ func c19Profile() *profile {
 	return &profile{
 		name:    "C19",
 		clients: [2]int{1, 2},
-		steps:   [2]int{15, 60},
-		ops: []string{
-			"bootstrap", "reregister", "create_session", "create_session", "create_session", "destroy_session",
-			"open", "open", "open", "open_fh", "close", "close", "downgrade", "lock_new", "lock_new", "lock_existing", "locku", "free_stateid",
-			"read", "write", "remove", "lookup", "noop", "destroy_session_inseq",
-			"release", "release", "release", "advance_small", "advance",
-			"replay", "replay", "replay", "replay", "replay", "dup", "dup", "dup", "dup", "false_retry", "false_retry", "false_retry",
-			"misordered", "misordered", "stale_busy", "bad_slot", "bad_session",
-		},
+		steps:   [2]int{20, 90},
+		ops: weighted(map[string]int{
+			"bootstrap": 1,
+			"reregister": 1,
+			"create_session": 5,
+			"destroy_session": 1,
+			"open": 10,
+			"open_fh": 4,
+			"open_then": 3,
+			"close": 6,
+			"downgrade": 3,
+			"lock_new": 6,
+			"lock_existing": 3,
+			"locku": 3,
+			"free_stateid": 2,
+			"read": 5,
+			"write": 5,
+			"remove": 2,
+			"lookup": 2,
+			"noop": 1,
+			"destroy_session_inseq": 1,
+			"release": 10,
+			"advance_small": 2,
+			"advance": 1,
+			"replay": 12,
+			"dup": 10,
+			"false_retry": 7,
+			"misordered": 4,
+			"stale_busy": 2,
+			"bad_slot": 2,
+			"bad_session": 1,
+		}),
 		oracle:   map[string]bool{"acct": true},
 		parkPct:  50,
 		devPct:   10,
@@ -62,13 +112,28 @@ func c20Profile() *profile {
 	return &profile{
 		name:    "C20",
 		clients: [2]int{1, 2},
-		steps:   [2]int{20, 80},
-		ops: []string{
-			"bootstrap", "reregister", "open", "open", "open", "open_fh", "close", "downgrade",
-			"lock_new", "lock_new", "lock_new", "lock_new", "lock_new", "lock_new", "lock_existing", "lock_existing", "lock_existing", "lock_existing",
-			"lockt", "lockt", "lockt", "lockt", "lockt", "locku", "locku", "locku", "locku", "free_stateid", "free_stateid",
-			"read", "remove", "lookup", "advance", "advance_small", "advance_small", "release", "replay", "shutdown",
-		},
+		steps:   [2]int{25, 110},
+		ops: weighted(map[string]int{
+			"bootstrap": 1,
+			"reregister": 1,
+			"open": 8,
+			"open_fh": 4,
+			"close": 4,
+			"downgrade": 1,
+			"lock_new": 16,
+			"lock_existing": 14,
+			"lockt": 12,
+			"locku": 12,
+			"free_stateid": 5,
+			"read": 1,
+			"remove": 1,
+			"lookup": 1,
+			"advance": 1,
+			"advance_small": 3,
+			"release": 2,
+			"replay": 1,
+			"shutdown": 1,
+		}),
 		oracle:   map[string]bool{"acct": true},
 		parkPct:  15,
 		devPct:   8,
@@ -77,6 +142,18 @@ func c20Profile() *profile {
 			return l["lock_owners_granted>=2"] > 0 && (l["lock_split"] > 0 || l["lock_merge"] > 0) && l["lock_range_to_max_offset"] > 0
 		},
 	}
+}
+
+// weighted expands a weight table into the multiset the generator draws
+// from (sorted, so that the draw is independent of map iteration order).
+func weighted(m map[string]int) []string {
+	var out []string
+	for _, k := range sortedKeys(m) {
+		for i := 0; i < m[k]; i++ {
+			out = append(out, k)
+		}
+	}
+	return out
 }
 
 func runProperty(t *testing.T, p *profile, rec *simkit.Recorder) {
